@@ -1,4 +1,29 @@
-(* C28 — property theorems only *)
-From Coq Require Import List NArith ZArith Bool.
+(* C28 — property theorems only: each closed by [exact lemma], followed by Print Assumptions. *)
+From Coq Require Import List NArith ZArith Bool RelationClasses.
 From Verif Require Import Common.GoStr C28.Model C28.Proof.
 Import ListNotations.
+
+(* identical returns for all type terms: with fuel >= size x + size y the answer is a boolean and the
+   same boolean for every larger fuel (fuel exhaustion never masquerades as an answer) *)
+Theorem C28_identical_total : forall x y, exists b : bool,
+  forall fuel, (size x + size y <= fuel)%nat -> identical fuel x y = Some b.
+Proof. exact identical_total_bound. Qed.
+Print Assumptions C28_identical_total.
+
+(* typeutil.Identical (fixed tree) is an equivalence relation on all type terms *)
+Theorem C28_identical_equivalence : Equivalence (fun a b : ty => identb a b = true).
+Proof. exact identb_equivalence. Qed.
+Print Assumptions C28_identical_equivalence.
+
+(* Identical(a,b) => Hasher.Hash(a) == Hasher.Hash(b) (uint32 arithmetic explicit), for every pointer-hash
+   function nh of named types, on well-formed terms (wfb: in every interface exactly the inherited methods are
+   the non-explicit ones, for the environment e of named interfaces) *)
+Theorem C28_identical_hash : forall (nh : N -> Z) (e : env) a b,
+  wfb e a = true -> wfb e b = true -> identb a b = true -> hash nh a = hash nh b.
+Proof. exact identb_hash'. Qed.
+Print Assumptions C28_identical_hash.
+
+(* the hash is a uint32 *)
+Theorem C28_hash_range : forall (nh : N -> Z) a, (forall i, 0 <= nh i < 4294967296)%Z -> (0 <= hash nh a < 4294967296)%Z.
+Proof. exact hash_range. Qed.
+Print Assumptions C28_hash_range.
